@@ -81,6 +81,9 @@ func IMMSites() []Site {
 		{Tag: "read y=x.F", Stmt: "y = x.F", Subj: SubjSilent},
 		{Tag: "read y=x.Xs[0]", Stmt: "y = x.Xs[0]", Subj: SubjSilent},
 		{Tag: "read y+=x.F", Stmt: "y += x.F", Subj: SubjSilent},
+		// a function-local type that merely has the name of the package's annotated type
+		{Tag: "shadow local type T write", Stmt: "func() { type T struct{ F int }; var t T; t.F = 1; t.F++; (&t).F += 1 }()", Subj: SubjSilent, Core: true},
+		{Tag: "shadow local type T2 write", Stmt: "func() { type T2 struct{ M []int }; t := &T2{M: []int{1}}; t.M[0] = 1; t.M = nil }()", Subj: SubjSilent},
 		{Tag: "read y=p.Mp[k]", Stmt: `y = p.Mp["k"]`, Subj: SubjSilent},
 		{Tag: "write var x=*p", Stmt: "x = *p", Subj: SubjSilent},
 		{Tag: "write var p=&x", Stmt: "p = &x", Subj: SubjSilent},
@@ -133,6 +136,8 @@ func CTORSites() []Site {
 		{Tag: "generic new(GT[int])", Stmt: "_ = new({GT}[int])", Subj: SubjT2, Codes: c2},
 		{Tag: "generic var v GT[int]", Stmt: "var $v {GT}[int]; _ = $v", Subj: SubjT2, Codes: c3},
 		{Tag: "generic call NewGT(1)", Stmt: "_ = {NewGT}(1)", Subj: SubjSilent},
+		{Tag: "shadow local type T instantiation", Stmt: "func() { type T struct{ F int }; _ = T{}; _ = &T{F: 1}; _ = new(T); var t T; _ = t; _ = []T{{}} }()", Subj: SubjSilent, Core: true},
+		{Tag: "shadow local type GT instantiation", Stmt: "func() { type GT[V any] struct{ F V }; _ = GT[int]{}; _ = new(GT[int]); var t GT[string]; _ = t }()", Subj: SubjSilent},
 		// reached without importing d in the file
 		{Tag: "noimport LT{}", Stmt: "_ = LT{}", Subj: SubjT, Codes: c1, OnlyInU: true, NoImport: true},
 		{Tag: "noimport new(LT)", Stmt: "_ = new(LT)", Subj: SubjT, Codes: c2, OnlyInU: true, NoImport: true},
